@@ -333,14 +333,38 @@ package anchoring
 // value reported are both the bounding of mid-range + half-range x (importance-weighted sum of the mapped differences)
 //@ func addAnchoringCriteriaToAlternatives
 //@   property C19 C07 C09
+//@   requires [state] state.listener != nil && state.referenceCriterion != nil && len(state.addedCriteria) == 0
+//@             && model.validParams(*state.listener, state.methodParams) && model.coversId(*state.listener, state.methodParams, state.referenceCriterion.Id)
+//@   requires [every_alternative_against_the_same_reference_points] forall i int :: 0 <= i && i < len(*perReferencePointDiffs) ==>
+//@             len((*perReferencePointDiffs)[i].ReferencePointsDifference) == len((*perReferencePointDiffs)[0].ReferencePointsDifference)
+//@   assigns state, state.addedCriteria
+//@   ensures [reference_criterion_and_listener_kept] state.referenceCriterion == old(state.referenceCriterion) && state.listener == old(state.listener)
+//@             && model.validParams(*state.listener, state.methodParams)
+//@   loop 1 invariant [state] state.listener == old(state.listener) && state.referenceCriterion == old(state.referenceCriterion) && state.listener != nil && state.referenceCriterion != nil
+//@             && model.validParams(*state.listener, state.methodParams) && model.coversId(*state.listener, state.methodParams, state.referenceCriterion.Id)
+//@   loop 1 invariant [one_record_per_reference_point_after_the_first_alternative] len(state.addedCriteria) == (iter == 0 ? 0 : len((*perReferencePointDiffs)[0].ReferencePointsDifference))
+//@             && (arr(state.addedCriteria) == old(arr(state.addedCriteria)) || fresh(state.addedCriteria))
+//@   loop 2 invariant [state] state.listener == old(state.listener) && state.referenceCriterion == old(state.referenceCriterion) && state.listener != nil && state.referenceCriterion != nil
+//@             && model.validParams(*state.listener, state.methodParams) && model.coversId(*state.listener, state.methodParams, state.referenceCriterion.Id)
+//@   loop 2 invariant [records_so_far] len(state.addedCriteria) == (i == 0 ? iter : len((*perReferencePointDiffs)[0].ReferencePointsDifference))
+//@             && 0 <= i && i < len(*perReferencePointDiffs) && p == (*perReferencePointDiffs)[i]
+//@             && (arr(state.addedCriteria) == old(arr(state.addedCriteria)) || fresh(state.addedCriteria))
 //@   loop 2 hint [attached_and_reported_value_is_the_bounded_one] newValue == criteria_bounding.boundedIn(*bounding.bounding, bounding.scaling.ValuesRange.Min + diff + diff * criterionValue)
 //@             && alt.Criteria[anchoringCriterion.Id] == newValue && anchoringCriterion.AlternativesValues[alt.Id] == newValue
 //@   loop 2 hint [half_range] diff == (bounding.scaling.ValuesRange.Max - bounding.scaling.ValuesRange.Min) / 2.0
 // newCriterion hands out the record of the ri-th added criterion, creating it (and its value map) on first use; the applier
 // starts from an empty list, so every record it hands out was created during the current application (trusted).
 //@ func (*additionalCriterionAnchoringState).newCriterion
-//@   trusted
-//@   ensures result != nil && fresh(result.AlternativesValues) && result.AlternativesValues != nil
+//@   property C19 C07 C09
+//@   fnparam .generator pure
+//@   requires [state] a.listener != nil && a.referenceCriterion != nil && 0 <= ri && ri <= len(a.addedCriteria)
+//@   requires [parameters_cover_the_reference_criterion] model.validParams(*a.listener, a.methodParams) && model.coversId(*a.listener, a.methodParams, a.referenceCriterion.Id)
+//@   assigns a, a.addedCriteria
+//@   ensures [the_record_of_that_reference_point] result != nil && ri < len(a.addedCriteria) && *result == a.addedCriteria[ri]
+//@   ensures [created_on_first_use_only] len(a.addedCriteria) == (old(len(a.addedCriteria)) == ri ? ri + 1 : old(len(a.addedCriteria)))
+//@   ensures [list_grows_in_place_or_into_a_new_array] arr(a.addedCriteria) == old(arr(a.addedCriteria)) || fresh(a.addedCriteria)
+//@   ensures [parameters_stay_valid] model.validParams(*a.listener, a.methodParams) && model.coversId(*a.listener, a.methodParams, a.referenceCriterion.Id) && a.listener == old(a.listener) && a.referenceCriterion == old(a.referenceCriterion)
+//@   assumes [handed_out_records_were_created_by_this_application] fresh(result.AlternativesValues) && result.AlternativesValues != nil
 
 //@ spec applierName(f AnchoringApplier) string
 //@ ifacemethod AnchoringApplier.Identifier
@@ -395,6 +419,8 @@ package anchoring
 //@ func (*NewCriterionAnchoringApplier).ApplyAnchoring
 //@   property C19 C07 C09
 //@   requires [state_well_formed] model.distinctCriteria(dmp.Criteria) && len(dmp.Criteria) > 0 && model.validParams(*listener, dmp.MethodParameters) && model.coversAll(*listener, dmp.MethodParameters, dmp.Criteria)
+//@   requires [every_alternative_against_the_same_reference_points] forall i int :: 0 <= i && i < len(*perReferencePointDiffs) ==>
+//@             len((*perReferencePointDiffs)[i].ReferencePointsDifference) == len((*perReferencePointDiffs)[0].ReferencePointsDifference)
 //@   returnhint [reference_criterion_is_the_providers_choice_among_the_ranked_criteria] exists k int :: 0 <= k && k < len(criteria) && state.referenceCriterion.Id == criteria[k].Id
 //@   returnhint [added_values_take_the_reference_criterions_range_and_bounding] state.referenceCriterion.Id in boundingsWithScales && scaling == boundingsWithScales[state.referenceCriterion.Id]
 //@   returnhint [report_names_the_reference_criterion] typeis(result1, NewCriterionAnchoringApplierResult) && result1.(NewCriterionAnchoringApplierResult).ReferenceCriterion == *state.referenceCriterion
